@@ -323,3 +323,28 @@ Print Assumptions C13_clone.
 Theorem C13_into_slice : forall e v c, repr e v c -> into_slice v = (c, no_eff).
 Proof. exact into_slice_spec. Qed.
 Print Assumptions C13_into_slice.
+
+(* ---------- the loop behind dedup_by / dedup_by_key / dedup, as /repo's source has it.  tools/rs2v.py
+   translates the `while` statement of partition_dedup_by into the statement language of RustSem on
+   every run (LeafActual.src_procs); the caller's closure is asked through a script (None: it panics).
+   For every slice length and every script the translated loop asks the same questions (candidate
+   first, last kept element second), makes the same swaps and ends with the same next_write as
+   VecModel.dedup_loop, and a panic of the closure leaves exactly the swaps made so far ---------- *)
+From BV Require Import DedupWalkOk.
+Theorem C13_source_dedup_loop : forall n ans base len nr nw t1 t2 t3 tr extra,
+  N.to_nat (len - nr) = n -> nr <= len -> 1 <= nw -> nw <= nr -> base + len < W -> (n <= List.length ans)%nat ->
+  let '(t, r, w, p) := drun base n nr nw ans in
+  exists t1' t2' t3',
+    exec src_fns (lfuel n extra) (denv base len nr nw t1 t2 t3) tr (map script_of ans) dloop =
+    if p then XPanic (denv base len r w t1' t2' t3') (List.app tr t)
+    else XOk (denv base len r w t1' t2' t3') (List.app tr t) (map script_of (skipn n ans)).
+Proof. exact loop_is_drun. Qed.
+
+Theorem C13_source_dedup_loop_is_the_model : forall n ans base len nr nw buf fuel,
+  N.to_nat (len - nr) = n -> nr <= len -> 1 <= nw -> nw <= nr -> (n <= List.length ans)%nat -> (n <= fuel)%nat ->
+  let '(t, r, w, p) := drun base n nr nw ans in
+  dedup_loop buf (N.to_nat len) (N.to_nat nr) (N.to_nat nw) ans fuel = (apply_swaps base t buf, N.to_nat w, p).
+Proof. exact drun_is_dedup_loop. Qed.
+
+Print Assumptions C13_source_dedup_loop.
+Print Assumptions C13_source_dedup_loop_is_the_model.
